@@ -442,7 +442,7 @@ func (p *c02Pipe) mainLoop(g *goSite, cls string) *ast.ForStmt {
 				if fn := callee(p.info, y); fn != nil && p.m.funcs[fn] != nil {
 					if p.m.unitReaches(p.m.byDecl[fn], func(u *unit) bool {
 						for _, op := range p.ops {
-							if op.u == u && op.class == cls && (op.kind == "send" || op.kind == "recv") {
+							if op.u.base() == u && op.class == cls && (op.kind == "send" || op.kind == "recv") {
 								return true
 							}
 						}
@@ -614,7 +614,34 @@ func c02Reader(r *core.R, p *c02Pipe) {
 		r.Bad(cDisp, loop.Pos(), "the reader does not pick the channel for a block as `dec.%s[i]` with one round-robin counter i", p.in)
 		return
 	}
-	if p.startsAtZero(iObj) {
+	// the counter may be handed over between variables before the loop (`turn := 0 … for i := turn; …`): the variables
+	// it is copy-initialised from are the same counter
+	aliases := p.counterAliases(iObj)
+	stepOf := func(n ast.Node) (int64, ast.Expr, types.Object, bool) {
+		for _, a := range aliases {
+			if k, nn, ok := c02Step(info, n, a); ok {
+				return k, nn, a, true
+			}
+		}
+		return 0, nil, nil, false
+	}
+	absStepOf := func(n ast.Node) (int64, ast.Expr, bool) {
+		for _, a := range aliases {
+			if k, nn, ok := c02AbsStep(info, n, a); ok {
+				return k, nn, true
+			}
+		}
+		return 0, nil, false
+	}
+	writesCounter := func(n ast.Node) types.Object {
+		for _, a := range aliases {
+			if c02WritesObj(info, n, a) {
+				return a
+			}
+		}
+		return nil
+	}
+	if p.startsAtZeroAll(aliases) {
 		r.OK(cStart, iObj.Pos(), "dispatch counter %s starts at 0", iObj.Name())
 	} else {
 		r.Bad(cStart, iObj.Pos(), "the dispatch counter %s does not start at 0 (the serializer starts collecting at 0), or is written other than by its round-robin step", iObj.Name())
@@ -710,10 +737,10 @@ func c02Reader(r *core.R, p *c02Pipe) {
 				}
 				return st
 			}
-			k, nn, ok := c02Step(info, ev.n, iObj)
+			k, nn, _, ok := stepOf(ev.n)
 			if !ok && st&inLoop == 0 && st&stepped == 0 {
 				// before the loop the counter still has its initial value 0: `i = K % n` is then the step by K
-				k, nn, ok = c02AbsStep(info, ev.n, iObj)
+				k, nn, ok = absStepOf(ev.n)
 			}
 			if ok {
 				nSteps++
@@ -728,8 +755,8 @@ func c02Reader(r *core.R, p *c02Pipe) {
 				}
 				return st | stepped
 			}
-			if c02WritesObj(info, ev.n, iObj) {
-				if _, isSpec := ev.n.(*ast.ValueSpec); !isSpec && !(st == 0 && c02IsZeroDef(info, ev.n, iObj)) {
+			if w := writesCounter(ev.n); w != nil {
+				if _, isSpec := ev.n.(*ast.ValueSpec); !isSpec && !(st&inLoop == 0 && st&stepped == 0 && c02IsZeroDef(info, ev.n, w)) && !(st&inLoop == 0 && c02IsAliasCopy(info, ev.n, w, aliases)) {
 					add(st, "step", ev.n.Pos(), fmt.Sprintf("`%s` writes the dispatch counter other than by `(%s+1) %% %s`", src(r.P.Fset, ev.n), iObj.Name(), p.nObj.Name()))
 				}
 				return st
@@ -799,4 +826,87 @@ func c02Ref(info *types.Info, e ast.Expr) types.Object {
 		return f
 	}
 	return nil
+}
+
+// counterAliases lists the round-robin counter and the variables it is copy-initialised from (transitively).
+func (p *c02Pipe) counterAliases(o types.Object) []types.Object {
+	out := []types.Object{o}
+	for i := 0; i < len(out) && i < 4; i++ {
+		v, ok := out[i].(*types.Var)
+		if !ok || v.IsField() {
+			continue
+		}
+		for _, d := range p.m.defsOf(v) {
+			if d.kind != "assign" || d.e == nil {
+				continue
+			}
+			if src, ok := objOf(p.info, d.e).(*types.Var); ok && !src.IsField() {
+				dup := false
+				for _, x := range out {
+					if x == types.Object(src) {
+						dup = true
+					}
+				}
+				if !dup {
+					out = append(out, src)
+				}
+			}
+		}
+	}
+	return out
+}
+
+// c02IsAliasCopy: n defines / assigns counter variable w with the plain value of another variable of the alias set.
+func c02IsAliasCopy(info *types.Info, n ast.Node, w types.Object, aliases []types.Object) bool {
+	as, ok := n.(*ast.AssignStmt)
+	if !ok || len(as.Lhs) != len(as.Rhs) {
+		return false
+	}
+	for i, l := range as.Lhs {
+		if c02Ref(info, l) != w {
+			continue
+		}
+		src := objOf(info, as.Rhs[i])
+		for _, a := range aliases {
+			if src != nil && src == a && a != w {
+				return true
+			}
+		}
+	}
+	return false
+}
+
+// startsAtZeroAll is startsAtZero for a counter handed over between variables: each variable is only defined by the
+// zero value / 0, by a round-robin step, or by a copy of another variable of the set, and the chain starts at 0.
+func (p *c02Pipe) startsAtZeroAll(aliases []types.Object) bool {
+	if len(aliases) == 1 {
+		return p.startsAtZero(aliases[0])
+	}
+	zeros := 0
+	for _, o := range aliases {
+		for _, d := range p.m.defsOf(o) {
+			switch d.kind {
+			case "zero":
+				zeros++
+			case "assign":
+				if _, _, isStep := c02Step(p.info, d.stmt, o); isStep {
+					continue
+				}
+				if _, _, isAbs := c02AbsStep(p.info, d.stmt, o); isAbs {
+					continue
+				}
+				if v, ok := constInt(p.info, d.e); ok && v == 0 {
+					zeros++
+					continue
+				}
+				if c02IsAliasCopy(p.info, d.stmt, o, aliases) {
+					continue
+				}
+				return false
+			default:
+				return false
+			}
+		}
+	}
+	return zeros == 1
 }
